@@ -516,6 +516,11 @@ def check_guarded(F, rep, R, cg, bodies):
     run_r7(F, rep, rep.tier, close_names)
     run_r8(F, rep, cg, sorted(reentry), inlined_expander, name)
     run_r9(F, rep, R, mir9, cg)
+    from rules.c20_splice import run_splice
+    if inlined_expander and not reentry:
+        rep.note("undecided", "C20-R12: the token expander is inlined into the guarded function (direct recursion); the splice clauses are not decided on this shape")
+    for tname in sorted(reentry):
+        run_splice(rep, cg, tname, name, cycle_fns)
     from rules.c20_tables import run_tables
     run_tables(F, rep, R, cg, opener_fns, close_fns, sorted(f for f in verdicts if all(v[0] for v in verdicts[f])))
 
